@@ -177,10 +177,20 @@ def optional_rule(m, rid, exceptions=None):
         if ss.open:
             n_open += 1
         bad = {}
-        for pat in sorted(pats):
+        methods = [("tostr", pf)]
+        seen_m = {"tostr"}
+        for kk in c["mro"]:
+            for name in m.classes.get(kk, {}).get("own", {}):
+                if name.startswith("get_") and name not in seen_m:
+                    g = m.method(k, name)
+                    if g is not None and any(A.text(x) == "self.items" for x in ast.walk(g.node)):
+                        methods.append((name, g))
+                        seen_m.add(name)
+        for mname, gf in methods:
+          for pat in sorted(pats):
             n = len(pat)
             tr = ItemNames(n)
-            node = tr.visit(copy.deepcopy(pf.node))
+            node = tr.visit(copy.deepcopy(gf.node))
             ast.fix_missing_locations(node)
             names = ["__item_%d" % i for i in range(n)]
             aliases = set()
@@ -189,7 +199,7 @@ def optional_rule(m, rid, exceptions=None):
                     for t in x.targets:
                         aliases |= set(A.assigned_names(t))
             cl = OptClient(names + sorted(aliases))
-            fi = M.FuncInfo(pf.file, pf.qualname, node, pf.cls_node, pf.module)
+            fi = M.FuncInfo(gf.file, gf.qualname, node, gf.cls_node, gf.module)
             fl = F.Flow(m, fi, cl)
             def is_node(e):
                 return e == "seq" or isinstance(e, tuple) and e and (e[0] in ("node", "pnode") or (e[0] == "lit" and e[1] not in ("", "''")) or
@@ -203,22 +213,24 @@ def optional_rule(m, rid, exceptions=None):
                     env[names[i]] = F.TRUTHY if all(is_node(sh[i]) for sh in pats[pat]) else NOTNONE
             try:
                 fl.run(F.State(env))
-            except Exception as err:      # the printer uses a statement form the engine does not know
-                r.error("%s.tostr: cannot interpret the printer (%s)" % (c["name"], err))
+            except Exception as err:      # the method uses a statement form the engine does not know
+                r.error("%s.%s: cannot interpret the method (%s)" % (c["name"], mname, err))
                 break
             for use, kind, stmt in cl.uses:
-                key = "%s|%s|%s" % (c["name"], use.id, kind)
-                bad.setdefault(key, (use, kind, stmt, pat))
+                if mname != "tostr" and kind != "dereferenced":
+                    continue        # an accessor may hand None on; only a dereference fails
+                key = "%s|%s|%s" % (c["name"], use.id, kind) if mname == "tostr" else "%s.%s|%s|%s" % (c["name"], mname, use.id, kind)
+                bad.setdefault(key, (use, kind, stmt, pat, mname, gf))
         for key in list(bad):
             if key in exceptions:
                 r.notes.append("%s exempt: %s" % (key, exceptions[key]))
                 del bad[key]
         r.ob(not bad, "%s: %d None-patterns %s" % (c["name"], len(pats), sorted(pats)) if r.instances % 12 == 0 else None)
-        for key, (use, kind, stmt, pat) in sorted(bad.items()):
+        for key, (use, kind, stmt, pat, mname, gf) in sorted(bad.items()):
             idx = use.id.replace("__item_", "items[") + "]" if use.id.startswith("__item_") else use.id
-            r.fail("%s|optional-%s|%s" % (c["name"], kind, idx), "%s.tostr: when the matcher returns the None-pattern %s, `%s` is %s at `%s` although it is "
-                   "None there: %s" % (c["name"], tuple("None" if b else "x" for b in pat), idx, kind, A.text(stmt)[:60],
+            r.fail("%s|%s|optional-%s|%s" % (c["name"], mname, kind, idx), "%s.%s: when the matcher returns the None-pattern %s, `%s` is %s at `%s` although it is "
+                   "None there: %s" % (c["name"], mname, tuple("None" if b else "x" for b in pat), idx, kind, A.text(stmt)[:60],
                                       "AttributeError/TypeError escapes from str(tree)" if kind == "dereferenced" else
-                                      "the text 'None' appears in the regenerated source"), m.loc(pf, use))
+                                      "the text 'None' appears in the regenerated source"), m.loc(gf, use))
     r.notes.append("classes whose matcher has an undetermined return besides the determined ones: %d" % n_open)
     return r
